@@ -194,8 +194,10 @@ MirrorFails(e, o) ==
   IF "mirror" \in DOMAIN e /\ e.mirror /\ twin[e.h].kind # "none" /\ lastev.op = e.op
   THEN LET p == CASE twin[e.h].kind = "clone" -> "C10" [] twin[e.h].kind = "reload" -> "C08" [] OTHER -> twin[e.h].kind
            lo == lastobs[twin[e.h].of] IN
-       (IF e.ret # lastev.ret THEN {F(e, p, "mirrored call returned something else")} ELSE {})
-       \cup (IF Broken(o) \/ Visible(o) # Visible(lo) THEN {F(e, p, "twin diverged after the same call")} ELSE {})
+       \* (the original completed this very call - a panic there ends the trace - so a panic here is the copy behaving differently)
+       IF e.panic THEN {F(e, p, "the same call panicked on the copy")}
+       ELSE (IF e.ret # lastev.ret THEN {F(e, p, "mirrored call returned something else")} ELSE {})
+            \cup (IF Broken(o) \/ Visible(o) # Visible(lo) THEN {F(e, p, "twin diverged after the same call")} ELSE {})
   ELSE {}
 
 Mutate(e) ==
@@ -255,7 +257,7 @@ Mutate(e) ==
       lat == IF ~judge \/ LatentOk(o, g2) THEN {} ELSE {F(e, "X-latent", "hook: unread set or group partition differs")}
       c10 == IF OthersSame(e, {h}) THEN {} ELSE {F(e, "C10", "a call changed another handle")}
       c07 == IF e.panic THEN {F(e, "C07", "a call within the limits panicked")} ELSE {}
-      mir == IF e.panic THEN {} ELSE MirrorFails(e, o)
+      mir == MirrorFails(e, o)
   IN
   [Cur EXCEPT
      !.fails = fails \cup c01 \cup c02 \cup c06 \cup c03 \cup brk \cup c04 \cup c05 \cup c19 \cup lat \cup c10 \cup c07 \cup mir,
@@ -395,8 +397,12 @@ MergeEv(e) ==
                   \cup (IF HasObs(e, s) /\ lastobs[s].h = s /\ Complete(ObsOf(e, s)) # Complete(lastobs[s])
                         THEN {F(e, "C11", "merge changed the right graph")} ELSE {})
       xm == IF ~both \/ ~good \/ ObsMatches(o, r.g) THEN {} ELSE {F(e, "X-id", "merge chose other ids than the model")}
-      c05 == IF ~good \/ (ToSet(o.alive) \ g.present) \cap (g.present \cup issued[h]) = {} THEN {}
-             ELSE {F(e, "C05", "merge created a vertex under a present or previously issued id")}
+      \* C05: the vertices merge creates (the ends of the right tree's paths that the left graph lacked, as the model knows them)
+      \* lie on ids that were neither present nor handed out before
+      c05 == (IF ~good \/ (ToSet(o.alive) \ g.present) \cap (g.present \cup issued[h]) = {} THEN {}
+              ELSE {F(e, "C05", "merge created a vertex under a present or previously issued id")})
+             \cup (IF both /\ total /\ \E v \in DOMAIN rho \ g.present : rho[v] \in g.present
+                   THEN {F(e, "C05", "a vertex created by merge coincides with a vertex that was present")} ELSE {})
       aliveok == good /\ AliveOk(o, g2)
       img == {r.m[x] : x \in DOMAIN r.m}
   IN
